@@ -10,6 +10,7 @@ import (
 	"fmt"
 	"os"
 	"path/filepath"
+	"runtime"
 	"sort"
 	"strings"
 	"sync"
@@ -330,4 +331,73 @@ func (r *Run) StartWatchdog(limit time.Duration) {
 			}
 		}
 	}()
+}
+
+// ---- blocked-library-call detector ------------------------------------------------------------
+
+// StartBlockDetector watches all goroutines: one that has been waiting continuously for at least
+// a minute on a synchronisation primitive (mutex, channel, cond, wait group) with a function of
+// the library itself as the innermost non-runtime frame is a library call that does not return
+// (self-deadlock on a lock taken twice, a wait nobody will signal). It is reported as a
+// violation with the last recorded input and the stack, and the check ends. The pending timer of
+// this goroutine also keeps the Go runtime from ending the process with "all goroutines are
+// asleep", which would otherwise look like a crash of the harness. The library as it stands
+// contains no blocking operation, so this cannot fire on it; goroutines parked by the harness's
+// own cooperative scheduler or inside handler callbacks have harness frames innermost.
+func (r *Run) StartBlockDetector() {
+	go func() {
+		buf := make([]byte, 1<<20)
+		for {
+			time.Sleep(5 * time.Second)
+			n := runtime.Stack(buf, true)
+			if fn, stack := libraryBlocked(string(buf[:n])); fn != "" {
+				if len(stack) > 3000 {
+					stack = stack[:3000]
+				}
+				r.Violation(Replay{Engine: "blocked", Entry: fn, Sig: "library-call-blocked/" + fn, InputB64: append([]byte(nil), LastBeat()...), Expected: "returns", Got: "goroutine blocked inside the library for more than a minute:\n" + stack})
+				os.Exit(r.Finish())
+			}
+		}
+	}()
+}
+
+// libraryBlocked parses a full goroutine dump and returns the innermost library function and the
+// stack of a goroutine that has been blocked for minutes directly inside the library.
+func libraryBlocked(dump string) (string, string) {
+	for _, g := range strings.Split(dump, "\n\n") {
+		lines := strings.Split(g, "\n")
+		if len(lines) < 2 || !strings.HasPrefix(lines[0], "goroutine ") || !strings.Contains(lines[0], " minutes") {
+			continue
+		}
+		hdr := lines[0]
+		blocked := false
+		for _, st := range []string{"[sync.", "[semacquire", "[chan ", "[select"} {
+			if strings.Contains(hdr, st) {
+				blocked = true
+			}
+		}
+		if !blocked {
+			continue
+		}
+		for _, l := range lines[1:] {
+			if strings.HasPrefix(l, "\t") || strings.HasPrefix(l, "created by") {
+				continue
+			}
+			if strings.HasPrefix(l, "runtime.") || strings.HasPrefix(l, "sync.") || strings.HasPrefix(l, "sync/atomic.") || strings.HasPrefix(l, "internal/") || strings.Contains(l, "/verifhook/vsync.") {
+				continue
+			}
+			// innermost frame that is neither runtime nor a sync primitive (nor its shim)
+			if strings.HasPrefix(l, "github.com/willabides/rjson.") || strings.HasPrefix(l, "github.com/willabides/rjson/internal/") {
+				fn := l
+				if i := strings.IndexByte(fn, '('); i > 0 && !strings.HasPrefix(fn[i:], "(*") {
+					fn = fn[:i]
+				} else if j := strings.LastIndexByte(fn, '('); j > 0 {
+					fn = fn[:j]
+				}
+				return strings.TrimPrefix(fn, "github.com/willabides/rjson"), g
+			}
+			break
+		}
+	}
+	return "", ""
 }
